@@ -39,7 +39,12 @@ impl IntoT for f64 { fn into_t(self) -> T { T::Float(self) } }
 pub fn rand_arith(r: &mut Rng) -> T {
     let name = ["add", "subtract", "multiply", "divide"][r.below(4)];
     let n = r.range(2, 3);
-    func(name, (0..n).map(|_| if r.chance(1, 2) { rand_var(r) } else { rand_number(r) }).collect())
+    func(name, (0..n).map(|_| match r.below(12) {
+        0..=4 => rand_var(r), 5..=9 => rand_number(r),
+        // an operand that ends in a parenthesis: a complex term, or a nested function in its named form
+        10 => cplx(FUNCTORS[r.below(FUNCTORS.len())], vec![rand_number(r)]),
+        _ => func(["add", "multiply"][r.below(2)], vec![rand_var(r), rand_number(r)]),
+    }).collect())
 }
 
 pub fn rand_simple_goal(r: &mut Rng, depth: usize) -> G {
@@ -174,7 +179,8 @@ pub fn small_bodies() -> Vec<G> {
 /// Source text with infix comparison / arithmetic where the documented syntax has one.
 pub fn src_term(t: &T) -> String {
     match t {
-        T::Func(f, a) if a.len() == 2 && ["add", "subtract", "multiply", "divide"].contains(&f.as_str()) && !a.iter().any(|x| matches!(x, T::Func(..))) => {
+        // (a nested function as *left* operand would need parentheses the syntax does not have; as right operand it is written in its named form)
+        T::Func(f, a) if a.len() == 2 && ["add", "subtract", "multiply", "divide"].contains(&f.as_str()) && !matches!(a[0], T::Func(..)) => {
             let op = match f.as_str() { "add" => "+", "subtract" => "-", "multiply" => "*", _ => "/" };
             format!("{} {} {}", show(&a[0]), op, show(&a[1]))
         }
